@@ -241,6 +241,17 @@ def verifyChain (C : Crypto) (reg : Option (List (List Nat × Nat))) (c : ChainS
   if c.height = 0 then none
   else match blockAt c.store 0 with
     | none => some .emptyChain
+    | some g =>
+      -- `if !prev_block.verify_tx_root()` on the genesis block (repo commit 8e53c5a4)
+      if g.header.txRoot ≠ txRoot C g.txs then some .txRoot
+      else verifyFrom C reg c.store g 1 c.height
+
+/-- `Chain::verify_chain` before repo commit 8e53c5a4 (the genesis block's `tx_root` was never compared
+    with its transactions); kept only for the regression witness in `Props.lean` -/
+def verifyChainOld (C : Crypto) (reg : Option (List (List Nat × Nat))) (c : ChainSt) : Option VerifyErr :=
+  if c.height = 0 then none
+  else match blockAt c.store 0 with
+    | none => some .emptyChain
     | some g => verifyFrom C reg c.store g 1 c.height
 
 /-- `Block::genesis` stored by `Chain::initialize` on an empty store -/
